@@ -58,6 +58,9 @@ TDeser == IsEvent("Deser") /\ LET e == Log[l]  b == blob[e.blob] IN
   /\ Chk("C09:reserialize", e.reimg = b.img)
   /\ obj' = (e.dst :> b.val) @@ obj /\ UNCHANGED blob
 
+\* an image whose C is negative, or a truncated image, is refused (clause of C11 exercised by this driver)
+TDeserBad == IsEvent("DeserBad") /\ Chk("C11:damaged-image-refused", Log[l].refused) /\ UNCHANGED <<obj, blob>>
+
 \* ---- proportional inclusion: counts over T seeded runs of one fixed stream (Stats verdict) ----
 \* P(item i in a result) = c * w_i / W = num_i / den with den = W * wmax, num_i = min(k * w_i * wmax, w_i * W).
 \* Accept iff |count_i - T p_i| <= 6 sqrt(T p_i (1 - p_i)) + 1, in integers scaled by den:
@@ -83,6 +86,6 @@ TStat == IsEvent("Stat") /\ LET e == Log[l]
 
 TInit == obj = <<>> /\ blob = <<>> /\ l = 1
 TNext == TBegin \/ TNew \/ TNewInvalid \/ TUpdate \/ TUpdateInvalid \/ TGetResult \/ TMerge \/ TCopy \/ TReset \/ TDrop
-         \/ TSer \/ TDeser \/ TStat
+         \/ TSer \/ TDeser \/ TDeserBad \/ TStat
 TSpec == TInit /\ [][TNext]_tvars
 ====
